@@ -175,6 +175,17 @@ func dataFieldSerializedSize(mode os.FileMode, mtime time.Time) int {
 	return 1 + varintLen(uint64(innerSize)) + innerSize
 }
 
+// nodeDataFieldSize returns the exact number of bytes the node's Data field
+// occupies in the PBNode encoding: tag(1) + len_varint + data, or nothing when
+// the node has no Data.
+func nodeDataFieldSize(node *mdag.ProtoNode) int {
+	data := node.Data()
+	if data == nil {
+		return 0
+	}
+	return 1 + varintLen(uint64(len(data))) + len(data)
+}
+
 // Directory defines a UnixFS directory. It is used for creating, reading and
 // editing directories. It allows to work with different directory schemes,
 // like the basic or the HAMT implementation.
@@ -648,10 +659,12 @@ func (d *BasicDirectory) computeEstimatedSizeAndTotalLinks() {
 
 	mode := d.GetSizeEstimationMode()
 	if mode == SizeEstimationBlock && d.node != nil {
-		// Compute data field size from stored metadata (no serialization needed).
-		// The mode and mtime fields are extracted in NewBasicDirectoryFromNode
-		// or set via WithStat option during creation.
-		d.estimatedSize = dataFieldSerializedSize(d.mode, d.mtime)
+		// Size of the Data field exactly as the node holds it (no serialization
+		// needed). Deriving it from d.mode/d.mtime instead is wrong once those
+		// differ from what the node stores: SetStat only records them for later
+		// conversions, and a stored mode field without permission bits reads
+		// back as mode 0 in NewBasicDirectoryFromNode.
+		d.estimatedSize = nodeDataFieldSize(d.node)
 
 		// Add link sizes using linkSerializedSize function
 		for _, l := range d.node.Links() {
